@@ -9,16 +9,32 @@ node z) and abstract time offsets (0..w-1); a *flavour* maps them to concrete id
                                       nodes: tuple of indices (for 'from': tuple of pairs)
   ('node', i, a)                      add_node(n, **ATTRS[a])
   ('nodes', (i, j), a)                add_nodes_from([..], **ATTRS[a])
+  ('uattr', i, a)                     update_node_attr(n, **ATTRS[a])          (only if n is in the graph)
+  ('uattrs', (i, j), a)               update_node_attr_from([..], **ATTRS[a])  (nodes in the graph only)
+  ('observe',)                        a bundle of read-only queries in the middle of a history (primes any hidden cache)
+  ('clear',) / ('clear_edges',)       the two removers of the networkx API
 """
 import networkx as nx
 
+HUGE = 2 ** 60          # beyond 2**53: float(t) is no longer injective on neighbouring instants
+
+
+def _np64(x):
+    import numpy
+    return numpy.int64(x)
+
+
 FLAVOURS = {
     0: dict(name='int-o-2', ids=[0, 1, 2, 3], z=9, origin=-2),     # the window straddles 0: falsy-zero instants and ids
-    1: dict(name='str-o7', ids=['b', 'a', 'c', 'd'], z='z', origin=7),
+    1: dict(name='str-oHUGE', ids=['b', 'a', 'c', 'd'], z='z', origin=HUGE + 7),   # unsorted string ids; instants beyond 2**53
     2: dict(name='int10-o-3', ids=[12, 10, 11, 13], z=19, origin=-3),
     3: dict(name='tuple-o100', ids=[(1, 'x'), (0, 'y'), (2, 'x'), (3, 'w')], z=(9, 'q'), origin=100),
     # non-ASCII string ids: only used by the file I/O properties (C09, C10)
     4: dict(name='str-nonascii-o7', ids=['\u00e9', 'a', '\u00fc', 'd'], z='z', origin=7),
+    # numpy integer instants (an integer type that is not a subclass of int)
+    5: dict(name='int-npint64-o5', ids=[0, 1, 2, 3], z=9, origin=5, timetype=_np64),
+    # mutually incomparable hashable ids
+    6: dict(name='mixed-ids-o3', ids=[0, 'a', (1, 'x'), frozenset({1, 2})], z=frozenset({7}), origin=3),
 }
 
 # node-attribute payloads (index 0 = none); nested mutables on purpose (C06/C11/C16)
@@ -44,7 +60,11 @@ def node_of(conf, i):
 
 
 def time_of(conf, t):
-    return None if t is None else FLAVOURS[conf['flavour']]['origin'] + t
+    if t is None:
+        return None
+    fl = FLAVOURS[conf['flavour']]
+    v = fl['origin'] + t
+    return fl['timetype'](v) if 'timetype' in fl else v
 
 
 def new_graph(conf):
@@ -82,6 +102,59 @@ def alphabet_U0(conf):
     return ops
 
 
+def alphabet_LONG(conf):
+    """one ordered pair, a wide window (conf['w'] >= 11): a point span at every instant and a two-instant interval at every
+    third one — many separate runs on one pair (5 calls give up to 5 runs)"""
+    w = conf['w']
+    ops = [('add', 0, 1, t, None) for t in range(w)]
+    ops += [('add', 0, 1, t, t + 2) for t in range(0, w - 1, 3)]
+    return ops
+
+
+def alphabet_UC(conf):
+    """hidden-state universe: adds on two pairs, read-only query bundles in between, and the two removers"""
+    w = conf['w']
+    ops = [('add', 0, 1, 0, None), ('add', 0, 1, 2, None), ('add', 0, 1, 1, 3), ('add', 1, 2, 0, 2), ('add', 1, 2, w - 1, None),
+           ('add', 2, 0, 1, None), ('node', 3, 1), ('observe',), ('clear',), ('clear_edges',)]
+    return ops
+
+
+def observe_bundle(G):
+    """read-only queries; their results are discarded here (the state oracles look later): only side effects matter"""
+    G.temporal_snapshots_ids()
+    G.interactions_per_snapshots()
+    list(G.stream_interactions())
+    G.interactions()
+    G.nodes()
+    G.degree()
+    G.number_of_interactions()
+    for n in list(G.nodes())[:3]:
+        G.neighbors(n)
+        G.has_node(n)
+        for t in G.temporal_snapshots_ids()[:2]:
+            G.neighbors(n, t)
+            G.degree([n], t)
+            G.has_node(n, t)
+    for t in G.temporal_snapshots_ids()[:3]:
+        G.interactions(t=t)
+        G.nodes(t)
+        G.number_of_nodes(t)
+        G.size(t)
+    if G.is_directed():
+        G.in_interactions()
+        G.out_interactions()
+        G.in_degree()
+        G.out_degree()
+        G.to_undirected()
+    else:
+        G.to_directed()
+    ids = G.temporal_snapshots_ids()
+    if ids:
+        G.time_slice(ids[0])
+        G.time_slice(ids[0], ids[-1])
+        G.time_slice(ids[-1], ids[-1] + 1)
+
+
 def bulk_ops(conf, sp):
     """bulk helpers in method form where the class has it, functional form always"""
     ops = []
@@ -116,8 +189,11 @@ def alphabet_U2(conf, bulk=True, nodes=True):
         ops += bulk_ops(conf, bsp)
         ops.append(('bulk', 'from', 'm', ((0, 1), (1, 2)), None, None))
         ops.append(('bulk', 'path', 'm', (0, 1, 2), None, None))
+        # long bulk calls: a 10-link walk that revisits a hub and a 9-element bunch with interleaved sources
+        ops.append(('bulk', 'path', 'm', (0, 1, 2, 0, 3, 1, 3, 2, 1, 0, 2), 1, None))
+        ops.append(('bulk', 'from', 'm', ((0, 1), (2, 3), (0, 2), (1, 3), (0, 3), (2, 1), (3, 0), (1, 2), (0, 0)), w - 1, None))
     if nodes:
-        ops += [('node', 3, 0), ('node', 3, 2), ('node', 0, 1), ('nodes', (2, 3), 1)]
+        ops += [('node', 3, 0), ('node', 3, 2), ('node', 0, 1), ('nodes', (2, 3), 1), ('uattr', 0, 2), ('uattr', 3, 1), ('uattrs', (0, 1), 1)]
     return ops
 
 
@@ -168,6 +244,14 @@ def op_concrete(conf, op):
         return 'add_node(%r, **%r)' % (n(op[1]), ATTRS[op[2]])
     if k == 'nodes':
         return 'add_nodes_from(%r, **%r)' % ([n(i) for i in op[1]], ATTRS[op[2]])
+    if k == 'observe':
+        return 'observe_bundle(G)   # read-only queries: ids, counts, stream, interactions, nodes, degrees, neighbours'
+    if k in ('clear', 'clear_edges'):
+        return 'G.%s()' % k
+    if k == 'uattr':
+        return 'update_node_attr(%r, **%r)  # if the node exists' % (n(op[1]), ATTRS[op[2]])
+    if k == 'uattrs':
+        return 'update_node_attr_from(%r, **%r)  # existing nodes only' % ([n(i) for i in op[1]], ATTRS[op[2]])
     return repr(op)
 
 
@@ -216,6 +300,17 @@ def apply_op(G, conf, op):
             G.add_node(n(op[1]), **copy.deepcopy(ATTRS[op[2]]))
         elif k == 'nodes':
             G.add_nodes_from([n(i) for i in op[1]], **copy.deepcopy(ATTRS[op[2]]))
+        elif k == 'observe':
+            observe_bundle(G)
+        elif k == 'clear':
+            G.clear()
+        elif k == 'clear_edges':
+            G.clear_edges()
+        elif k == 'uattr':
+            if G.has_node(n(op[1])):
+                G.update_node_attr(n(op[1]), **copy.deepcopy(ATTRS[op[2]]))
+        elif k == 'uattrs':
+            G.update_node_attr_from([n(i) for i in op[1] if G.has_node(n(i))], **copy.deepcopy(ATTRS[op[2]]))
         else:
             raise AssertionError('unknown op %r' % (op,))
     except AssertionError:
